@@ -461,10 +461,15 @@ def compare(cases, impl, model, norm_impl=None, norm_model=None):
         if a is None or b is None:
             diffs.append((line, a, b))
             continue
-        a2 = norm_impl(a) if norm_impl else a
+        def ap(f, x):
+            try:
+                return f(x, line)
+            except TypeError:
+                return f(x)
+        a2 = ap(norm_impl, a) if norm_impl else a
         alts = [x.strip() for x in b.split(" || ")]
         if norm_model:
-            alts = [norm_model(x) for x in alts]
+            alts = [ap(norm_model, x) for x in alts]
         if a2 not in alts:
             diffs.append((line, a, b))
     return diffs
